@@ -135,6 +135,10 @@ type trieRun struct {
 	// copies taken with SecureTrie.Copy and the content they must keep
 	copies     []*trie.SecureTrie
 	copyModels []map[string][]byte
+	// value copies of a plain Trie (the very mechanism SecureTrie.Copy consists of): with structured
+	// keys these share extension nodes and leaves with the original, unhashed
+	plainCopies     []*trie.Trie
+	plainCopyModels []map[string][]byte
 }
 
 func (r *trieRun) add(class, format string, a ...any) {
@@ -373,6 +377,12 @@ func ExecTrie(t *testing.T, pa any, col *kernel.Collector) []kernel.Violation {
 				r.copyModels = append(r.copyModels, cloneMap(r.model))
 				col.Inc("op_secure_trie_copy")
 			}
+			if r.tr != nil && len(r.plainCopies) < 4 {
+				cp := *r.tr
+				r.plainCopies = append(r.plainCopies, &cp)
+				r.plainCopyModels = append(r.plainCopyModels, cloneMap(r.model))
+				col.Inc("op_plain_trie_value_copy")
+			}
 		case "iter":
 			r.iterate()
 		case "prove":
@@ -395,6 +405,21 @@ func ExecTrie(t *testing.T, pa any, col *kernel.Collector) []kernel.Violation {
 		}
 		if h, want := cp.Hash(), r.refRoot(cm); h != want {
 			r.add("trie-copy-changed-with-original", "copy %d hashes to %x, the reference root of what it held is %x", ci, h, want)
+			return r.vs
+		}
+	}
+	for ci, cp := range r.plainCopies {
+		cm := r.plainCopyModels[ci]
+		for i := 0; i < 24; i++ {
+			k := keyOf(p.KeyMode, i)
+			got, err := cp.TryGet(k)
+			if err != nil || !bytes.Equal(got, cm[string(k)]) {
+				r.add("trie-copy-changed-with-original", "value copy %d of the plain trie: get(%x) = %x (%v), it held %x when it was taken", ci, k, got, err, cm[string(k)])
+				return r.vs
+			}
+		}
+		if h, want := cp.Hash(), r.refRoot(cm); h != want {
+			r.add("trie-copy-changed-with-original", "value copy %d of the plain trie hashes to %x, the reference root of what it held is %x", ci, h, want)
 			return r.vs
 		}
 	}
